@@ -1459,6 +1459,13 @@ class Interp:
             if cls is None or _text(f) in s.env:
                 return None
             m = self.model.find_method(cls, f.attr)
+            if m is None:
+                # the object is of another class than the code that runs on it (a mix-in interpreted on a plain node)
+                for alt in (getattr(fn, 'cls', None), getattr(self.h, 'cls', None)):
+                    if isinstance(alt, M.ClassInfo) and alt is not cls:
+                        m = self.model.find_method(alt, f.attr)
+                        if m is not None:
+                            break
             if m is None or (m.cls is not None and f.attr in m.cls.properties and m.cls.properties[f.attr].get('get') is m
                              and not getattr(self, '_property_ok', False)):
                 return None
